@@ -7,7 +7,7 @@ import pandas as pd
 import sympy as sp
 
 from pvx import field
-from pvx.claims import flat, full_domain
+from pvx.claims import flat, full_domain, eq_spec
 from pvx.deps import RotationStub
 from pvx.harness import Ob
 from pvx.loader import load, rdomain
@@ -168,9 +168,14 @@ def run(ctx):
     ctx.guard(_rate, ctx, py)
     ctx.guard(_increment_series, ctx, py)
     ctx.guard(_increment_glue, ctx, py)
+    ctx.guard(_sine_motion, ctx, py)
     ctx.guard(_schema, ctx, py)
     ctx.guard(_standin, ctx, py)
     ctx.guard(_fixed_point_standin, ctx, py)
+    # "integrating the synthesised readings reproduces the trajectory" goes through strapdown.compute_increments_from_imu: its
+    # interface contract (rows, columns, stamps, dt = exact stamp differences; C15) is re-established under this property
+    from props import C15 as _C15
+    ctx.guard(_C15._schema, ctx, py)
 
     # frame of the modules under contract (no state kept between calls, arguments left alone): same analysis as C19
     from props import C19 as _C19
@@ -178,6 +183,73 @@ def run(ctx):
 
 
 # ---------------------------------------------------------------------------------------------
+def _sine_motion(ctx, py):
+    """generate_sine_velocity_motion hands generate_imu the DOCUMENTED motion: V = V_mean + V_ampl sin(2 pi t / period + offset),
+    roll 0, pitch / heading along the velocity -- for every mean, amplitude, period and phase offset (symbols), and for the
+    literal argument forms a caller writes (offsets omitted, all zero, a scalar; amplitude omitted)."""
+    from pvx.npproxy import patched as _patched
+    SIM = py.sim
+    m = sp.symbols("vm0:3", real=True)
+    a = sp.symbols("va0:3", real=True)
+    o = sp.symbols("vo0:3", real=True)
+    Tp = sp.Symbol("Tper", positive=True)
+    dom = {x: (-30, 30) for x in m}
+    dom.update({x: (-5, 5) for x in a})
+    dom.update({x: (-180, 180) for x in o})
+    dom[Tp] = (5, 120)
+    dt_, total = 0.5, 2.0
+    stamps = [0.0, 0.5, 1.0, 1.5]
+
+    def call(v, offsets, ampl=True):
+        cap = {}
+
+        def generate_imu(time, lla, rph, velocity_n=None, sensor_type="rate"):
+            cap.update(time=time, lla=lla, rph=rph, vel=velocity_n, sensor_type=sensor_type)
+            return None, None
+        sym = isinstance(v["vm0"], RSym)
+        arr = lambda names: np.array([v[n_.name] for n_ in names], dtype=object if sym else float)
+        kw = {}
+        if isinstance(offsets, str) and offsets == "symbols":
+            kw["velocity_change_phase_offset"] = arr(o)
+        elif not isinstance(offsets, str):
+            kw["velocity_change_phase_offset"] = offsets
+        if ampl:
+            kw["velocity_change_amplitude"] = arr(a)
+        with _patched((SIM, dict(generate_imu=generate_imu))):
+            SIM.generate_sine_velocity_motion(dt_, total, [50.0, 30.0, 100.0], arr(m), velocity_change_period=v["Tper"], **kw)
+        return cap
+
+    def spec(v, offsets, ampl=True):
+        from pvx.sym import exact as _exact
+        if isinstance(offsets, str) and offsets == "symbols":
+            off = [v[x.name] * sp.pi / 180 for x in o]
+        else:
+            # a literal offset is converted by the real np.deg2rad (float64): the contract is stated for that very number
+            lit = [0, 90, 0] if isinstance(offsets, str) else offsets
+            off = [_exact(float(x)) for x in np.deg2rad(np.broadcast_to(np.asarray(lit, dtype=float), (3,)))]
+        out = []
+        for t_ in stamps:
+            for i in range(3):
+                amp = v[a[i].name] if ampl else 0
+                out.append(v[m[i].name] + amp * sp.sin(2 * sp.pi * sp.Rational(repr(t_)) / v["Tper"] + off[i]))
+        return out
+
+    forms = [("symbolic_offsets", "symbols", True), ("offsets_omitted", "omitted", True), ("offsets_all_zero", [0, 0, 0], True),
+             ("offsets_zero_array", np.zeros(3), True), ("offset_scalar_zero", 0, True), ("offset_scalar_30", 30.0, True),
+             ("amplitude_omitted", [0, 90, 0], False)]
+    for tag, offs, ampl in forms:
+        syms = list(m) + (list(a) if ampl else []) + [Tp] + (list(o) if isinstance(offs, str) and offs == "symbols" else [])
+        eq_spec(ctx, "C03.sine_motion.velocity.%s" % tag, syms,
+                lambda v, offs=offs, ampl=ampl: list(np.asarray(call(v, offs, ampl)["vel"], dtype=object).reshape(-1)),
+                lambda v, offs=offs, ampl=ampl: spec(v, offs, ampl), dom, py=py, tol=1e-9, history=False)
+    # stamps, initial position, roll and the sensor type are passed through
+    with rdomain(py):
+        cap = call({x.name: RSym(x) for x in list(m) + list(a) + list(o) + [Tp]}, "symbols")
+    ok = ([float(x) for x in np.asarray(cap["time"], dtype=object)] == stamps and [float(x) for x in np.asarray(cap["lla"], dtype=object).reshape(-1)] == [50.0, 30.0, 100.0]
+          and all(sp.sympify(unwrap(x)) == 0 for x in np.asarray(cap["rph"], dtype=object)[:, 0]) and cap["sensor_type"] == "rate")
+    ctx.ob("C03.sine_motion.passthrough", "c", ok, "symbolic-execution", 0.0, "stamps arange(0, total, dt), lla0, roll = 0 and the sensor type reach generate_imu unchanged")
+
+
 def _run_form(py, form, log):
     SIM = py.sim
     time_, lla, rph, vel, V = _inputs(form)
